@@ -856,7 +856,9 @@ class XsdGroup(XsdComponent, MutableSequence[ModelParticleType],
                               model_element: SchemaElementType,
                               namespaces: NsmapType) -> None:
 
-        if model_element is not xsd_element and isinstance(model_element, XsdElement):
+        if model_element is not xsd_element and isinstance(model_element, XsdElement) \
+                and isinstance(xsd_element, XsdElement):
+            # The matching element is a member of the substitution group of the model element
             if 'substitution' in model_element.block \
                     or xsd_element.type and xsd_element.type.is_blocked(model_element):
                 reason = _("substitution of %r is blocked") % model_element
